@@ -44,6 +44,23 @@ def _maxval_precision(bound: RealFloat, exp: int) -> int:
     return bound.c.bit_length()
 
 
+def _bound_product(a: RealFloat | float, b: RealFloat | float) -> RealFloat | float:
+    """
+    Product of two bounds.  A ``float`` bound is an unbounded side (``+/-inf``);
+    a zero bound leaves nothing but zero on its side, so ``0 * inf`` is ``0``.
+    The sign is the XOR of the operand signs, for finite and unbounded sides alike.
+    """
+    a_unbounded = isinstance(a, float)
+    b_unbounded = isinstance(b, float)
+    if (not a_unbounded and a.is_zero()) or (not b_unbounded and b.is_zero()):
+        return RealFloat.from_int(0)
+    if a_unbounded or b_unbounded:
+        a_neg = a < 0 if a_unbounded else a.s
+        b_neg = b < 0 if b_unbounded else b.s
+        return float('-inf') if a_neg != b_neg else float('inf')
+    return a * b
+
+
 @default_repr
 class AbstractFormat:
     """
@@ -307,8 +324,14 @@ class AbstractFormat:
         # two like-sign corners give the maximum and the two cross corners the
         # minimum -- `max` on the latter would claim the *tighter* of the two
         # and miss the product it names: `[-1,1] * [-2,1]` reaches -2
-        pos_bound = max(self.pos_bound * other.pos_bound, self.neg_bound * other.neg_bound)
-        neg_bound = min(self.pos_bound * other.neg_bound, self.neg_bound * other.pos_bound)
+        pos_bound = max(
+            _bound_product(self.pos_bound, other.pos_bound),
+            _bound_product(self.neg_bound, other.neg_bound),
+        )
+        neg_bound = min(
+            _bound_product(self.pos_bound, other.neg_bound),
+            _bound_product(self.neg_bound, other.pos_bound),
+        )
 
         # special values: 0 is representable everywhere, so `inf * 0 = NaN` is
         # reachable whenever either operand has an infinity -- the NaN result is
